@@ -1,4 +1,5 @@
 import CkcVerif.Model.Card
+import CkcVerif.Generated.Presets
 import CkcVerif.Spec.Layout
 import CkcVerif.Spec.Combos
 import CkcVerif.Lemmas.Combos
